@@ -303,7 +303,7 @@ parser_rules: List[Tuple[str, Callable[[str], Instruction]]] = [
     ("err", lambda _x: instructions.Err()),
     ("assert", lambda _x: instructions.Assert()),
     ("int ", lambda x: instructions.Int(_parse_int(x) if _is_int(x) else x)),
-    ("pushints ", lambda x: instructions.PushInts(list(map(_parse_int, x.split(" "))))),
+    ("pushints", lambda x: instructions.PushInts(list(map(_parse_int, x.split())))),
     ("pushint ", lambda x: instructions.PushInt(_parse_int(x) if _is_int(x) else x)),
     ("txn ", lambda x: instructions.Txn(parse_transaction_field(x, False))),
     ("txna ", lambda x: instructions.Txna(parse_transaction_field(x, False))),
@@ -476,8 +476,8 @@ parser_rules: List[Tuple[str, Callable[[str], Instruction]]] = [
     ),
     ("frame_dig ", lambda x: instructions.FrameDig(_parse_int(x))),
     ("frame_bury ", lambda x: instructions.FrameBury(_parse_int(x))),
-    ("switch ", lambda x: instructions.Switch(x.split(" "))),
-    ("match ", lambda x: instructions.Match(x.split(" "))),
+    ("switch", lambda x: instructions.Switch(x.split())),
+    ("match", lambda x: instructions.Match(x.split())),
     ("box_create", lambda x: instructions.BoxCreate()),
     ("box_extract", lambda x: instructions.BoxExtract()),
     ("box_replace", lambda x: instructions.BoxReplace()),
